@@ -24,6 +24,8 @@ GROUPS += [
          bounded=None),
     dict(name="fsg_search_pnode_trans", harness=W, enforce="fsg_search_pnode_trans", min_postconditions=2, loop_contracts=True, loops=["pnode_trans.children"], min_loop_steps=1,
          replace=WR, allow_no_body=["*"]),
+    dict(name="fsg_search_hmm_prune_prop", harness=W, enforce="fsg_search_hmm_prune_prop", min_postconditions=1, loop_contracts=True, loops=["prune_prop.active"], min_loop_steps=1, unwind=40,
+         replace=WR + ["fsg_search_pnode_trans", "fsg_search_pnode_exit"], allow_no_body=["*"]),
     dict(name="fsg_search_word_trans", harness=W, enforce="fsg_search_word_trans", min_postconditions=1, loop_contracts=True, loops=["word_trans.entries", "word_trans.roots"], min_loop_steps=2, unwind=24,
          outside_property=[r"arithmetic overflow on signed shl in 1 << \((lc|rc) & 0x1F\)"],
          replace=WR, allow_no_body=["*"]),
